@@ -294,6 +294,12 @@ def pipeline_cases(ctx):
             b.lats[n - trail - 1, rng.randrange(51)] = rng.choice([95.0, -100.0])
         pool = [(0, 0), (1, 0), (2, 5), (0, num + 3), (num, 0), (3, 0), (5, 9), (1, 2)]
         requests = [rng.choice(pool[:5])] + ([rng.choice(pool) for _ in range(rng.randint(1, 2))] if crossing or k % 4 == 0 else [])
+        if k == 3 or (k >= 4 and plat is None and k % 5 == 3):
+            # lines WITHOUT coordinates in the INTERIOR of the pass (flagged records between good ones) and requests whose first
+            # or last selected line is one of them: rows are rows - the stored start / end times are those of the first / last
+            # STORED row, whatever that row contains
+            b.quality[7:10] = bit
+            requests = [(7 - lead, 0), (0, 9 - lead), (8 - lead, 12 - lead)]
         if k < 2:
             # always present: the WHOLE pass, no line without coordinates at either end, written twice from one reader (the
             # slicing step has nothing to cut there; what it hands to the writer must still not be the reader's own arrays)
@@ -361,6 +367,8 @@ def pipeline_cases(ctx):
             q = fq["/qual_flags/data"][...].astype(np.int64)
             if q.shape[0] != len(rows) or not np.array_equal(q[:, 0], np.asarray(r.scans["scan_line_number"]).astype(np.int64)[R]):
                 bad.append("qualflags/qual_flags(line numbers)")
+            ta = fa["/image1/what"].attrs
+            st_attr = tuple((ta[k_].decode() if isinstance(ta[k_], bytes) else str(ta[k_])) for k_ in ("startdate", "starttime", "enddate", "endtime"))
             mid_attr = fq["/ancillary"].attrs["midnight_scanline"]
             mid_attr = mid_attr.decode() if isinstance(mid_attr, bytes) else str(mid_attr)
             fa.close()
@@ -370,6 +378,14 @@ def pipeline_cases(ctx):
                 ctx.violation("%s Reader.save(%d, %d)%s, %d/%d lines without coordinates: %s differ from rows %d..%d of the reader's products" % (
                     fmt, start, end, "" if nreq == 0 else " (request no. %d on this reader)" % (nreq + 1), lead, trail, ", ".join(bad),
                     rows[0], rows[-1]), payload, cls="pipeline-rows")
+            import datetime as _dt
+            t_first = _dt.datetime(1970, 1, 1) + _dt.timedelta(milliseconds=int(times[rows[0]]))
+            t_last = _dt.datetime(1970, 1, 1) + _dt.timedelta(milliseconds=int(times[rows[-1]]))
+            want_st = (t_first.strftime("%Y%m%d"), t_first.strftime("%H%M%S"), t_last.strftime("%Y%m%d"), t_last.strftime("%H%M%S"))
+            if st_attr != want_st:
+                ctx.violation("%s Reader.save(%d, %d)%s: stored start / end %s, the first / last stored rows (%d, %d) have the times %s" % (
+                    fmt, start, end, "" if nreq == 0 else " (request no. %d on this reader)" % (nreq + 1), st_attr, rows[0], rows[-1], want_st),
+                    payload, cls="pipeline-start-end")
             days = times // 86400000
             steps = [i for i in range(len(days) - 1) if days[i + 1] > days[i]]
             mid = steps[0] if len(steps) == 1 else None
